@@ -136,7 +136,50 @@ pub fn gen_key(cfg: &GenCfg) -> String {
 }
 
 /// number literals whose classification is unambiguous
+/// a number literal straight from the RFC 8259 grammar (finite, moderate exponent)
+pub fn gen_number_grammar() -> String {
+    let mut s = String::new();
+    if chance(1, 3) {
+        s.push('-');
+    }
+    let int_digits = *pick(&[1u32, 1, 2, 3, 5, 9, 15]);
+    if int_digits == 1 && chance(1, 3) {
+        s.push('0');
+    } else {
+        s.push(char::from(b'1' + draw(9) as u8));
+        for _ in 1..int_digits {
+            s.push(char::from(b'0' + draw(10) as u8));
+        }
+    }
+    let frac = chance(1, 2);
+    if frac {
+        s.push('.');
+        for _ in 0..*pick(&[1u32, 1, 2, 3, 6, 12]) {
+            s.push(char::from(b'0' + draw(10) as u8));
+        }
+    }
+    if chance(1, 2) || (!frac && s.trim_start_matches('-') == "0") {
+        s.push(if draw(2) == 0 { 'e' } else { 'E' });
+        match draw(3) {
+            0 => {}
+            1 => s.push('+'),
+            _ => s.push('-'),
+        }
+        s.push_str(&format!("{}", draw(25)));
+        if chance(1, 4) {
+            s.insert(s.len() - 1, '0'); // a leading zero in the exponent is allowed
+        }
+    }
+    if s == "-0" {
+        s.push_str(".0");
+    }
+    s
+}
+
 pub fn gen_number() -> String {
+    if chance(1, 4) {
+        return gen_number_grammar();
+    }
     match draw(10) {
         0 => "0".into(),
         1 => format!("{}", draw(100)),
